@@ -83,6 +83,9 @@ func main() {
 		oneLoop(run, key, r, genLoopCfg(r, i))
 	})
 	// a run that observed nothing proves nothing
+	if run.Replaying() {
+		run.Exit()
+	}
 	if run.Counter("loops_conclusive_after_S2") == 0 {
 		run.Inconclusive("no loop reached the point where both S2 sentinels had crossed")
 	}
